@@ -14,7 +14,7 @@ enum { FK_HEAP = 0, FK_MAP, FK_THREAD, FK_MUTEX, FK_COND, FK_BARRIER, FK_N };
 typedef struct fi_event {
     uint8_t acquire;  /* 1 acquire, 0 release */
     uint8_t op;       /* FI_* for acquire, FK_* for release */
-    uint8_t failed;   /* 1 injected failure, 2 natural failure, 3 bad release */
+    uint8_t failed;   /* 1 injected failure, 2 natural failure, 3 bad release, 4 second free of a block freed in the window */
     uint8_t depth;    /* instrumentation depth (if built with -finstrument-functions) */
     int idx;          /* acquisition index in the window (acquire only) */
     int rid;          /* resource id renamed by first-seen order in the window, -1 = pre-existing */
@@ -44,6 +44,7 @@ long fi_live_total(void);                      /* live resources of the whole pr
 int fi_live_in_window(const fi_ent **out, int max); /* acquired in last window, still live */
 int fi_pre_released(void);                     /* pre-window resources released inside the window */
 int fi_bad_releases(void);                     /* releases of unknown keys (whole process) */
+int fi_double_frees(void);                     /* of those: second free of a block quarantined in the window */
 int fi_live_list(const fi_ent **out, int max); /* all live entries */
 uint32_t fi_window(void);
 void fi_note(const char *s);                   /* async-safe breadcrumb on stderr */
